@@ -30,6 +30,7 @@ import (
 	"fmt"
 	"io"
 	"maps"
+	"math"
 	"math/big"
 	"mime"
 	"mime/multipart"
@@ -110,6 +111,11 @@ func (r *Resolver) Resolve(ctx context.Context, hosts source.RegistryHosts, refs
 		return nil, err
 	}
 	blobConfig := &r.blobConfig
+	// The size comes from the registry. The chunk arithmetic of the blob (offsets rounded up to the
+	// next chunk boundary) must stay within int64.
+	if size < 0 || size > math.MaxInt64-2*blobConfig.ChunkSize {
+		return nil, fmt.Errorf("invalid size %d of blob %v reported by the registry", size, desc.Digest)
+	}
 	return makeBlob(f,
 		size,
 		blobConfig.ChunkSize,
